@@ -220,6 +220,27 @@ fn exhaustive_job(job: usize, jobs: usize, k: usize) -> Stats {
     st
 }
 
+/// Every tree with `k` operator nodes over {a, b} as BODY of `lfp a #` / `gfp a #` (monotone or
+/// not): whatever iteration the reference finds convergent must come out with the reference's
+/// value — "repeatedly apply until stable" — also when the iterates pass through a constant.
+fn exhaustive_fix_job(job: usize, jobs: usize, k: usize, stride: usize) -> Stats {
+    let mut st = Stats::new();
+    let trees = enum_trees(k);
+    for (i, t) in trees.iter().enumerate() {
+        if i % jobs != job || (i / jobs) % stride != 0 {
+            continue;
+        }
+        let body = gen::render_plain(t);
+        for kw in ["lfp", "gfp"] {
+            let text = format!("{} a # ({})", kw, body);
+            if check_text(&mut st, &text, "exhaustive-fixed-point-bodies") {
+                st.bump(&format!("exhaustive_fixed_point_bodies_{}_ops", k));
+            }
+        }
+    }
+    st
+}
+
 fn examples(ctx: &Ctx, st: &mut Stats) {
     // the repository's own example formulas that are small enough for truth tables
     for f in ["examples/4_queens.txt", "examples/fixedpoint.txt", "examples/fp.txt", "examples/state_machine.txt", "examples/cliques.txt", "examples/graph_coloring.txt"] {
@@ -246,6 +267,36 @@ pub fn run(ctx: &Ctx) -> (Stats, Spec) {
         st.merge(crate::report::merge_all(parts));
     }
     st.exhaustive.push("all formula trees with <= 2 operator nodes over the names a, b (every node kind; lists <= 2 elements, constants <= 2)".into());
+    for k in 0..=2usize {
+        let parts = util::par_jobs(64, |job| exhaustive_fix_job(job, 64, k, 1));
+        st.merge(crate::report::merge_all(parts));
+    }
+    // sampled bodies with 3 operator nodes: a 2-node tree under one more node
+    let wrapped = ctx.tier.pick(2_000u64, 60_000u64);
+    let parts = util::par_jobs(16, |job| {
+        let mut s = Stats::new();
+        let mut rng = Rng::stream(ctx.seed, "C01.fixbodies", job as u64);
+        let (small, trees) = (enum_trees(1), enum_trees(2));
+        for _ in 0..wrapped {
+            let t = rng.pick(&trees).clone();
+            let other = rng.pick(&small).clone();
+            let body = match rng.below(6) {
+                0 => Ast::Not(Box::new(t)),
+                1 => Ast::Quant(rng.chance(1, 2), vec![rng.pick_str(&["a", "b"]).to_string()], Box::new(t)),
+                2 => Ast::Bin(*rng.pick(&refsyn::ALL_OPS), Box::new(t), Box::new(other)),
+                3 => Ast::Bin(*rng.pick(&refsyn::ALL_OPS), Box::new(other), Box::new(t)),
+                4 => Ast::Ite(Box::new(other), Box::new(t), Box::new(Ast::Var("a".into()))),
+                _ => Ast::Quant(rng.chance(1, 2), vec!["b".into(), "a".into()], Box::new(t)),
+            };
+            let text = format!("{} a # ({})", if rng.chance(1, 2) { "lfp" } else { "gfp" }, gen::render_plain(&body));
+            if check_text(&mut s, &text, "sampled-fixed-point-bodies") {
+                s.bump("sampled_fixed_point_bodies_3+_ops");
+            }
+        }
+        s
+    });
+    st.merge(crate::report::merge_all(parts));
+    st.exhaustive.push("every formula tree with <= 2 operator nodes over a, b as body of `lfp a #` and `gfp a #` (convergent ones judged, monotone or not)".into());
     let (iters, max_names, depth) = ctx.tier.pick((40_000u64, 6usize, 5u32), (1_500_000u64, 8usize, 6u32));
     let parts = util::par_jobs(16, |job| random_job(ctx, job, iters, max_names, depth));
     st.merge(crate::report::merge_all(parts));
@@ -259,7 +310,7 @@ pub fn run(ctx: &Ctx) -> (Stats, Spec) {
         floors.push((format!("node_{}", kind), 200, format!("construct {} hardly exercised", kind)));
     }
     let spec = Spec {
-        rule: "random formula trees over 1-6 [quick] / 1-8 [thorough] names (plain and non-ASCII/primed names) with every construct, rendered with random alias spellings, whitespace, comments, stray separators and redundant parentheses; exhaustive small trees; README examples and the repository's example files. The expectation is the reference parse + truth-table semantics of the exact text given to the engine. distinct = hash of the reference tree (kinds, names, constants); non-trivial = >= 2 operator nodes and (non-constant table or a binder/counting/fixed-point node).".into(),
+        rule: "random formula trees over 1-6 [quick] / 1-8 [thorough] names (plain and non-ASCII/primed names) with every construct, rendered with random alias spellings, whitespace, comments, stray separators and redundant parentheses; exhaustive small trees, also as bodies of lfp / gfp (every tree with <= 2 operator nodes, sampled ones with 3-4; non-monotone bodies included — whatever the reference iteration finds convergent is judged); README examples and the repository's example files. The expectation is the reference parse + truth-table semantics of the exact text given to the engine. distinct = hash of the reference tree (kinds, names, constants); non-trivial = >= 2 operator nodes and (non-constant table or a binder/counting/fixed-point node).".into(),
         assumptions: vec![
             "texts the reference does not accept are not judged here (C08); formulas with references or constants >= 2^31 are excluded (C05)".into(),
             "fixed points are handed to the engine only when the reference iteration converges within the lattice height; a case that exceeds the step budget is counted as inconclusive, never as a violation".into(),
